@@ -212,6 +212,9 @@ func (g *gen) tree(depth int) *node {
 		if _, ok := n.eval(); !ok {
 			continue
 		}
+		if n.depth() > depth && n.depth() > 1 {
+			continue
+		}
 		if g.excl != nil && g.excl(n) {
 			continue
 		}
@@ -303,6 +306,9 @@ func (g *gen) tryTree(depth int) *node {
 				n.Kids[1] = g.operand(d, false, false)
 			}
 		case "hypot":
+			if d < 2 {
+				return nil
+			}
 			t := core.Pick(r, [][2]int{{3, 4}, {5, 12}, {8, 15}, {0, 7}, {20, 21}, {0, 0}})
 			sc := core.Pick(r, []string{"1", "2", "0.5", "1024", "1e3"})
 			mk := func(v int) *node {
@@ -316,6 +322,9 @@ func (g *gen) tryTree(depth int) *node {
 			// squares of exact values
 			b := g.operand(d-1, false, false)
 			n.Kids = []*node{{Op: "bin", Lit: "*", Kids: []*node{b, b.clone()}}}
+			if d < 2 {
+				n.Kids = []*node{{Op: "lit", Lit: core.Pick(r, []string{"0", "1", "4", "9", "16", "2.25", "0.25", "1e300", "4e-324", "18014398509481984"})}}
+			}
 			if r.Chance(1, 4) {
 				n.Kids = []*node{g.operand(d, true, false)}
 			}
@@ -345,7 +354,7 @@ func (g *gen) tryTree(depth int) *node {
 		if num {
 			// BigInt() needs an integral Number: steer towards integers
 			if r.Chance(2, 3) {
-				kid = &node{Op: "math", Lit: "trunc", Kids: []*node{kid}}
+				kid = &node{Op: "math", Lit: "trunc", Kids: []*node{g.operand(d-1, false, false)}}
 			}
 		}
 		if r.Bool() {
